@@ -338,6 +338,46 @@ _record(
 )
 
 
+# --- 6b. the same kind of shadowing with the registrations made in the other order: namespace first, global afterwards
+class CShadow2(CBase):
+    __slots__ = ()
+
+
+def _cshadow2_g_flatten(o):
+    tick('flatten:CShadow2/global', o)
+    return tuple(o.kids), ('CShadow2/global', o.meta)
+
+
+def _cshadow2_g_unflatten(metadata, children):
+    tick('unflatten:CShadow2/global', metadata)
+    return CShadow2(children, metadata[1])
+
+
+def _cshadow2_ns_flatten(o):
+    tick('flatten:CShadow2/vf', o)
+    n = len(o.kids)
+    return tuple(reversed(o.kids)), ('CShadow2/vf', o.meta), tuple(range(n - 1, -1, -1))
+
+
+def _cshadow2_ns_unflatten(metadata, children):
+    tick('unflatten:CShadow2/vf', metadata)
+    return CShadow2(reversed(list(children)), metadata[1])
+
+
+optree.register_pytree_node(
+    CShadow2, _cshadow2_ns_flatten, _cshadow2_ns_unflatten, path_entry_type=optree.SequenceEntry, namespace=NS
+)
+optree.register_pytree_node(CShadow2, _cshadow2_g_flatten, _cshadow2_g_unflatten, namespace=GLOBAL)
+_record('', CShadow2, lambda o: (list(o.kids), ('CShadow2/global', o.meta), None), _cshadow2_g_unflatten, optree.AutoEntry)
+_record(
+    NS,
+    CShadow2,
+    lambda o: (list(reversed(o.kids)), ('CShadow2/vf', o.meta), tuple(range(len(o.kids) - 1, -1, -1))),
+    _cshadow2_ns_unflatten,
+    optree.SequenceEntry,
+)
+
+
 # --- 7. user-defined PyTreeEntry subclass, tuple entries
 class MyEntry(optree.PyTreeEntry):
     __slots__ = ()
@@ -466,7 +506,7 @@ def _partial_flatten(o):
 
 _record('', optree.functools.partial, _partial_flatten, optree.functools.partial.tree_unflatten, optree.GetAttrEntry)
 
-CUSTOM_GLOBAL = (CSeq, CList, CMap, CAttr, CShadow, CUser, UDict, DCG, PDC)
+CUSTOM_GLOBAL = (CSeq, CList, CMap, CAttr, CShadow, CShadow2, CUser, UDict, DCG, PDC)
 CUSTOM_NS = (CNs, DC)
 LEAF_SUBCLASSES = (ListSub, TupleSub, DictSub, ODictSub, DDictSub, DequeSub)
 
